@@ -1,5 +1,6 @@
 import hashlib
 
+from rogw.tranp.errors import Errors
 from rogw.tranp.lang.annotation import injectable
 from rogw.tranp.module.module import Module
 from rogw.tranp.module.loader import IModuleLoader
@@ -69,19 +70,25 @@ class Modules:
 			* 依存モジュールを再帰的にロードする
 			```
 		"""
-		if module_path not in self.__modules:
-			self.__load_libraries(module_path)
+		try:
+			if module_path not in self.__modules:
+				self.__load_libraries(module_path)
 
-		# XXX 標準ライブラリーのロード中に自身がロードされる場合があるため再確認(typing, collections.abc)
-		if module_path not in self.__modules:
-			self.__modules[module_path] = self.__loader.load(ModulePath(module_path, language))
-			try:
-				self.__load_dependencies(self.__modules[module_path])
-				self.__loader.preprocess(self.__modules[module_path])
-			except Exception:
-				# ロードに失敗したモジュールを登録したままにしない(再試行時に未完了のモジュールが返却されるのを防ぐ)
-				self.unload(module_path)
-				raise
+			# XXX 標準ライブラリーのロード中に自身がロードされる場合があるため再確認(typing, collections.abc)
+			if module_path not in self.__modules:
+				self.__modules[module_path] = self.__loader.load(ModulePath(module_path, language))
+				try:
+					self.__load_dependencies(self.__modules[module_path])
+					self.__loader.preprocess(self.__modules[module_path])
+				except Exception:
+					# ロードに失敗したモジュールを登録したままにしない(再試行時に未完了のモジュールが返却されるのを防ぐ)
+					self.unload(module_path)
+					raise
+		except Errors.Error:
+			raise
+		except Exception as e:
+			# XXX プリプロセッサー・ノードのプロパティーはProcedureの外で実行されるため、Procedureと同様にアプリケーション例外に正規化する
+			raise Errors.Fatal(module_path, 'Unhandled error', e) from e
 
 		return self.__modules[module_path]
 
